@@ -1,7 +1,7 @@
 /-
   Driver for the `cause` family (C17, skip functions).
   line:  cause binary <t> <hex>        => ok <n> | err <e> | PANIC <class>
-         cause br     <t> <hex> <src>  => ok <readn> | err <e> | PANIC <class>
+         cause br     <t> <hex> <src>  => ok <readn> | err <e> is=<names> | PANIC <class>
     src = "b<cap>" (bytes reader with that capacity) or a script (DefaultReader over a scripted source)
   model column: skipBin / skipBR.  verdict: the implementation's error against the independent
   classifiers causeBin / causeStream (Spec/Cause.lean) and the source's script (Spec/Cursor.lean).
@@ -11,6 +11,7 @@ import Verif.Base.Parse
 import Verif.Model.SkipStream
 import Verif.Spec.Cause
 import Verif.Spec.Cursor
+import Verif.Model.ErrBridge
 namespace Verif
 
 def terrStr : TErr → String
@@ -62,6 +63,28 @@ def srcAllowed (script : List Resp) (x : String) : Bool :=
   x == rerrStr (firstErr script) ||
   (x == "noprogress" && quietRun Facts.maxConsecutiveEmptyReads script 0)
 
+def parseRErr (x : String) : Option RErr :=
+  if x == "eof" then some .eof
+  else if x == "noprogress" then some .noProgress
+  else if x == "negcount" then some .negCount
+  else if x.startsWith "src" then (x.drop 3).toNat?.map .src
+  else none
+
+/-- the `is=` column: the source errors `errors.Is` finds in the error object the bridge
+    (`TErr.toErr goSrc`, C18's `errorsIs`) builds for the model's error -/
+def isStr (e : TErr) : String :=
+  match isObserved e with
+  | [] => "-"
+  | l => "+".intercalate (l.map rerrStr)
+
+/-- "pe<id>(<x>)" → (id, x) -/
+def parseWrapped (e : String) : Option (Int × String) :=
+  if e.startsWith "pe" && e.endsWith ")" then
+    match ((e.drop 2).dropRight 1).toString.splitOn "(" with
+    | [id, x] => id.toInt?.map (fun i => (i, x))
+    | _ => none
+  else none
+
 /-- BufferReader.Skip: a failure is either the wrapped error of the source, or the protocol exception
     of a classified grammar cause (never for truncation: a stream that ends is the source's error) -/
 def verdictBR (t : UInt8) (b : Bytes) (src : SrcKind) (res : String) : String :=
@@ -69,11 +92,19 @@ def verdictBR (t : UInt8) (b : Bytes) (src : SrcKind) (res : String) : String :=
   let script := match src with | .script s => s | .bytes _ => []
   match res.splitOn " " with
   | "ok" :: _ => (match c with | .ok _ => "ok" | .error _ => "na")
-  | "err" :: e :: _ =>
-    if e.startsWith "pe0(" && e.endsWith ")" then
-      let x := ((e.drop 4).dropRight 1).toString
-      if srcAllowed script x then "ok" else s!"bad:C17:wrapped-not-from-source-{x}"
-    else if e == "pe0" then "bad:C17:cause-lost"
+  | "err" :: e :: rest =>
+    let isCol := (rest.headD "is=-").drop 3 |>.toString |>.splitOn "+"
+    match parseWrapped e with
+    | some (id, x) =>
+      -- a wrapped error: it must be the source's own (C04 provenance), errors.Is must still find it,
+      -- and the type id must be the one NewProtocolExceptionWithErr gives for that cause (the bridge)
+      if !srcAllowed script x then s!"bad:C17:wrapped-not-from-source-{x}"
+      else if !isCol.contains x then s!"bad:C17:is-src-{x}"
+      else match parseRErr x with
+        | some se => if wrapTypeId (goSrc se) == some id then "ok" else s!"bad:C17:wrap-typeid-{id}"
+        | none => "bad:protocol"
+    | none =>
+    if e == "pe0" then "bad:C17:cause-lost"
     else if e.startsWith "pe" then
       match c with
       | .error cc =>
@@ -95,7 +126,9 @@ def handleCause (args : List String) (impl : String) : String × String :=
     match t.toNat?, parseHex hex, parseSrc src with
     | some t, some b, some src =>
       if t > 255 then ("bad-op", "na") else
-      (toutStr (fun (p : Unit × Rd) => toString p.2.readLen) (skipBR (UInt8.ofNat t) (mkRd b src)),
+      ((match skipBR (UInt8.ofNat t) (mkRd b src) with
+        | .err e => s!"err {terrStr e} is={isStr e}"
+        | x => toutStr (fun (p : Unit × Rd) => toString p.2.readLen) x),
        verdictBR (UInt8.ofNat t) b src impl)
     | _, _, _ => ("bad-op", "na")
   | _ => ("bad-op", "na")
